@@ -89,8 +89,8 @@ GROUPS = {"unmanaged": "presence", "noNode": "presence", "nodeGone": "presence",
           "claimDeleting": "deleting", "instanceTerminating": "deleting", "nominated": "nom", "nominatedEdge": "nom",
           "nominatedExpired": "nom", "nodeDnd": "nodeDnd", "nodeDndFalse": "nodeDnd", "noPoolLabel": "pool", "poolUnknown": "pool",
           "podDndTrue": "podDnd", "podDndDur": "podDnd", "podDndDurEdge": "podDnd", "podDndDurExpired": "podDnd",
-          "podDndNoStart": "podDnd", "podDndInvalid": "podDnd", "podDndTerminal": "podDnd", "dsPodDnd": "podDnd", "pdbZero": "pdb",
-          "pdbOk": "pdb", "pdbMulti": "pdb", "pdbZeroWaived": "pdb", "pdbZeroTolerating": "pdb", "pdbZeroOtherNs": "pdb",
+          "podDndNoStart": "podDnd", "podDndInvalid": "podDnd", "podDndTerminal": "podDnd", "podDndTerminating": "podDnd", "dsPodDnd": "podDnd", "pdbZero": "pdb",
+          "pdbOk": "pdb", "pdbMulti": "pdb", "pdbZeroWaived": "pdb", "pdbZeroTolerating": "pdb", "pdbZeroOtherNs": "pdb", "pdbZeroAll": "pdb", "pdbZeroNilSel": "pdb",
           "notConsolidatable": "cons", "consolidatableEdge": "cons", "consolidatableFalse": "cons", "poolKindFlip": "poolKind",
           "caNever": "ca", "caNeverStale": "ca", "whenEmpty": "policy", "buffer": "buffer", "notDrifted": "drift", "tgp": "tgp", "poolTgp": "poolTgp"}
 
@@ -148,8 +148,11 @@ def apply_blocker(b, pools, nodes, pods, pdbs, rng=None, xname="x", pxname="px",
             px.update(dnd=dur, startedAt=-1)
         elif b == "podDndInvalid":
             px["dnd"] = "garbage" if rng is None else rng.choice(["garbage", "-5m", "0s", "false", "True"])
-        elif b == "podDndTerminal":
-            px.update(dnd="true", phase="Succeeded" if rng is None else rng.choice(["Succeeded", "Failed"]))
+        elif b in ("podDndTerminal", "podDndTerminating"):
+            if b == "podDndTerminal":
+                px.update(dnd="true", phase="Succeeded" if rng is None else rng.choice(["Succeeded", "Failed"]))
+            else:
+                px.update(dnd="true", terminating=True, terminatingAt=T0 - 5, owner="replicaset" if px["owner"] == "statefulset" else px["owner"])
             if not px["deletionCost"] and px["owner"] != "daemonset":   # keep the node non-empty for the methods that want it so
                 pods.append(pod(pxname + "b", xname))
     elif b == "dsPodDnd":
@@ -173,6 +176,11 @@ def apply_blocker(b, pools, nodes, pods, pdbs, rng=None, xname="x", pxname="px",
             px["toleratesDisruption"] = True
         elif b == "pdbZeroOtherNs":
             pdbs.append(pdb(nm, sel, 0, ns="other"))
+        elif b == "pdbZeroAll":
+            pdbs.append(pdb(nm, {}, 0, ns="pdbns-" + xname))   # empty selector: every pod of the (dedicated) namespace
+            px["ns"] = "pdbns-" + xname
+        elif b == "pdbZeroNilSel":
+            pdbs.append(pdb(nm, {}, 0, nilSelector=True))
     elif b == "notConsolidatable":
         x["lastPodEvent"] = T0 - CA + 1
     elif b == "consolidatableEdge":
